@@ -217,6 +217,9 @@ func Main(t *testing.T, h *Harness) {
 		return h.Run(t, plan, keep)
 	}
 	matchKnown := func(plan any, out *Outcome) string {
+		if os.Getenv("VERIF_REPLAY") == "" && os.Getenv("VERIF_IGNORE_KNOWN") != "" {
+			return "" // development aid: produce a replay plan for a known finding
+		}
 		for _, k := range h.Known {
 			if k.Match(plan, out) {
 				return k.Key
